@@ -41,15 +41,13 @@ func RegistPullStreamFactory(f PullStreamFactory) {
 
 // Regist 注册流
 func Regist(s *Stream) {
-	// 获取同 path 的现有流
-	oldSI, ok := streams.Load(s.path)
+	// 设置新流并取得同 path 的现有流: one atomic step, so that two racing
+	// registrations never both replace the same old stream and lose one of them
+	oldSI, ok := streams.Swap(s.path, s)
 	if s == oldSI { // 如果是同一个源
 		return
 	}
-
-	verifhook.Point("regist.loaded", 0)
-	// 设置新流
-	streams.Store(s.path, s)
+	verifhook.Point("regist.swapped", 0)
 
 	// 如果存在旧流
 	if ok {
